@@ -149,6 +149,19 @@ add(
     "DESIGN.md 6/C12",
 )
 
+add(
+    "C17",
+    "exploration",
+    "Real Tuner over the scripted back-end (1-3 metrics with per-metric modes, NaN/inf/string/bool values, ties, trials without "
+    "results, skipped mid-batch results) and in the simulator (configuration changes on resume); oracles: results table == delivery "
+    "history row by row (values, trial_id, config_* at delivery time, decision, time stamp), CSV read-back == memory (1e-12), "
+    "Tuner.best_config / load_experiment().best_config attain the optimum over handed values / table rows, running statistics == "
+    "Python min/max/sum/len over the handed values. 1.4e4 runs quick, 2.7e5 thorough.",
+    "Empty-string metric values are not generated (an empty CSV cell); when every value of a metric is the worst infinite value the best-config clause is skipped.",
+    "property-based testing (Hypothesis choice tape, real Tuner): history vs results table, round-trip and independent recomputation oracles",
+    "DESIGN.md 6/C17",
+)
+
 NOT_YET = {}
 
 ALL = [f"C{i:02d}" for i in range(1, 21)]
